@@ -431,6 +431,19 @@ func (c19) Run(c core.Case, w *core.Worker) core.Result {
 				cmp(name, outVal(v, err), want)
 			case 12, 13: // ZAdd
 				score := float64(r.Range(0, 9)) + float64(r.Intn(4))/4 // never -1: ZScore encodes absence as -1
+				switch r.Intn(5) {
+				case 0:
+					// scores that need all 17 significant digits, large integers, tiny and huge magnitudes
+					score = float64(r.U64()>>11) / float64(uint64(1)<<53) * float64(r.Range(1, 1000))
+				case 1:
+					score = float64(r.U64() >> uint(r.Range(1, 40)))
+				case 2:
+					score = float64(r.Range(1, 999)) / 3 * []float64{1e-9, 1, 1e12, 1e-300, 1e200}[r.Intn(5)]
+				}
+				if score == -1 {
+					score = 1
+				}
+				res.Add("zadd_scores", 1)
 				o0, wt0 := access(k, tZSet, false)
 				if cmd == 13 && !wt0 && o0 != nil {
 					if s0, ok := o0.zset[e]; ok && r.Chance(1, 2) {
